@@ -1091,14 +1091,22 @@ func c09KeyspaceSwitchSameConn(c *Ctx, bed *px.Bed) {
 						f = call(&message.Execute{QueryId: pr.PreparedQueryId, Options: &message.QueryOptions{Consistency: primitive.ConsistencyLevelOne}})
 						return f != nil && f.OpCode == primitive.OpCodeResult
 					}
-					seq := []string{"", "system", "ks1", "system", "ks1"}
+					// a name behind "!" is a keyspace that does not exist: the USE fails and the keyspace stays what it was
+					seq := []string{"", "system", "!nosuch_a", "ks1", "!nosuch_b", "system", "ks1"}
 					if start == 1 {
-						seq = []string{"system", "ks1", "system"}
+						seq = []string{"system", "ks1", "!nosuch_c", "system", "!nosuch_d"}
 					}
 					cur := ""
 					okRun := true
 					for step, ks := range seq {
-						if ks != "" {
+						if strings.HasPrefix(ks, "!") {
+							if use(fmt.Sprintf("%s_%d", ks[1:], n)) {
+								r.Obs("keyspace_switch_failing_use_succeeded(judged by C07)", 1)
+								okRun = false
+								break
+							}
+							r.Obs("keyspace_switch_failed_uses", 1)
+						} else if ks != "" {
 							if !use(ks) {
 								r.Obs("keyspace_switch_use_failed", 1)
 								okRun = false
